@@ -224,13 +224,27 @@ def run_c09(ctx, spec):
                 t = s.tensor
                 s2 = State.from_numpy(t.flatten(), t.shape, s.host_num_map)
                 ok = np.array_equal(s2.tensor, t) and np.array_equal(s.numpy_flat(), t.flatten(order="C"))
+                # the same content handed over in another memory layout (column-major copy, a frame of a
+                # column-major rollout buffer, a strided view): flattening is row-major whatever the layout
+                buf = np.zeros((3,) + t.shape, order="F", dtype=t.dtype)
+                buf[1] = t
+                wide = np.zeros((t.shape[0], 2 * t.shape[1]), dtype=t.dtype)
+                wide[:, ::2] = t
+                for alt in (np.asfortranarray(t), buf[1], wide[:, ::2]):
+                    s3 = State.from_numpy(alt, t.shape, s.host_num_map) if alt.shape == t.shape else None
+                    if s3 is not None:
+                        ok = ok and np.array_equal(s3.numpy_flat(), t.flatten(order="C")) \
+                            and np.array_equal(s3.copy().numpy_flat(), t.flatten(order="C"))
                 AR = __import__("nasim.envs.action", fromlist=["ActionResult"]).ActionResult
                 for res_, flags_ in ((AR(False, connection_error=True), [0.0, 1.0, 0.0, 0.0]),
                                      (AR(False, permission_error=True), [0.0, 0.0, 1.0, 0.0]),
                                      (AR(False, undefined_error=True), [0.0, 0.0, 0.0, 1.0]),
                                      (AR(True), [1.0, 0.0, 0.0, 0.0])):
                     o = s.get_observation(runner.env.action_space.get_action(0), res_, True)
-                    for arr in (o.numpy_flat(), o.numpy().copy()):
+                    o2d = o.numpy().copy()
+                    fbuf = np.zeros((2,) + o2d.shape, order="F", dtype=o2d.dtype)
+                    fbuf[0] = o2d
+                    for arr in (o.numpy_flat(), o.numpy().copy(), np.asfortranarray(o2d), fbuf[0]):
                         o2 = Observation.from_numpy(arr, t.shape)
                         ok = ok and np.array_equal(o2.numpy(), o.tensor) and np.array_equal(o2.numpy_flat(), o.numpy_flat())
                         r2, aux2 = o2.get_readable()
@@ -358,7 +372,7 @@ def run_c10(ctx, spec):
             # one field of one host is the unique extreme of the whole scenario: each argument of the
             # space's min(...) / max(...) gets its turn at deciding the bound
             hs = [(a, dict(c)) for a, c in sd["hosts"]]
-            a_, c_ = rng.choice(hs)
+            a_, c_ = rng.choice([hs[0], hs[-1], rng.choice(hs)])      # first / last listed host, or any
             fld = rng.choice(["val", "dval"])
             c_[fld] = rng.choice([500, -500, 300.5, -0.5])
             sens_ = [(x, (dict(hs)[x]["val"])) for x, _ in sd["sens"]]
@@ -404,6 +418,17 @@ def run_c10(ctx, spec):
                                                        "an observation inside the space", impl=str(r)[:500], **where))
                 for _ in range(nsteps):
                     a = env.action_space.sample()
+                    # the same member in the other forms the space contains: other integer dtypes (signed and
+                    # unsigned), Python ints / lists / tuples
+                    if rng.random() < 0.5:
+                        if modes[1]:
+                            alts = [int(a), np.int32(a), np.int64(a)] + ([np.uint8(a)] if int(a) < 256 else []) + [np.uint32(a), np.uint16(a % 65536)]
+                        else:
+                            alts = [np.asarray(a, dtype=dt) for dt in (np.int32, np.uint8, np.uint16, np.uint32, np.int8)
+                                    if int(np.max(a)) <= np.iinfo(dt).max] + [list(int(x) for x in a), tuple(int(x) for x in a)]
+                        alts = [x for x in alts if isinstance(x, (list, tuple)) or (env.action_space.contains(x) and np.all(np.asarray(x) == np.asarray(a)))]
+                        if alts:
+                            a = rng.choice(alts)
                     evals += 1
                     distinct.add((hash(json.dumps(sdw)), modes, str(a)))
                     try:
